@@ -3606,7 +3606,12 @@ class NameCheckVisitor(node_visitor.ReplacingNodeVisitor):
                 and isinstance(op, (ast.Gt, ast.GtE, ast.Lt, ast.LtE))
             ):
                 op_func, _, _ = COMPARATOR_TO_OPERATOR[type(op)]
-                definite_value = op_func(sys.version_info, rhs.val)
+                try:
+                    definite_value = op_func(sys.version_info, rhs.val)
+                except TypeError:
+                    # e.g. sys.version_info >= 3: not comparable; the ordinary
+                    # comparison check below reports what is wrong
+                    pass
             lhs = lhs.value
         if isinstance(lhs_constraint, PredicateProvider) and isinstance(
             rhs, KnownValue
